@@ -44,9 +44,17 @@ def contributions(fn: ast.FunctionDef) -> tuple[set, list[str]]:
     wrap = None
     if isinstance(rv, ast.Call) and isinstance(rv.func, ast.Name) and rv.func.id in ("set", "list", "tuple") and len(rv.args) == 1 and isinstance(rv.args[0], ast.Name):
         wrap, rv = rv.func.id, rv.args[0]
-    if not isinstance(rv, ast.Name):
+    direct = None
+    if isinstance(rv, ast.Call) and isinstance(rv.func, ast.Name) and rv.func.id in ("set", "list", "tuple") and len(rv.args) == 1 \
+            and isinstance(rv.args[0], (ast.ListComp, ast.SetComp, ast.GeneratorExp)):
+        rv = rv.args[0]
+    if isinstance(rv, (ast.ListComp, ast.SetComp, ast.GeneratorExp)):
+        # the view is returned as one comprehension: a single contribution, no accumulator
+        direct, acc = rv, "\0none"
+    elif not isinstance(rv, ast.Name):
         return set(), [f"returns {ast.unparse(rets[0].value)}"]
-    acc = rv.id
+    else:
+        acc = rv.id
     out = set()
 
     def add(iters, conds, elem, star):
@@ -127,6 +135,8 @@ def contributions(fn: ast.FunctionDef) -> tuple[set, list[str]]:
 
     locals_: list[ast.Assign] = []
     walk(fn.body, [], [])
+    if direct is not None:
+        comp(direct, [], [], False)
     if wrap:
         out = {(i, c, e) for i, c, e in out}
     return out, odd + ([f"helper local {ast.unparse(l.targets[0])}" for l in locals_] if locals_ else [])
